@@ -180,7 +180,7 @@ def _env(mm):
 def sel_c08(mm):
     # C08 quantifies over streams whose segments fit the capacity
     t = set(mm.get("tags", []))
-    return _env(mm) == "fit" and bool(t & {"feed", "state", "conserve", "leaves", "ghost", "idx", "panic"})
+    return _env(mm) == "fit" and bool(t & {"feed", "edge", "conserve", "leaves", "idx", "panic"})
 
 
 def sel_c09(mm):
